@@ -82,97 +82,241 @@ def _is_public_reject(g, r):
     return False
 
 
+class _SampleMac(object):
+    """the checker's stand-in for an HMAC context: remembers what it was fed (nothing of the library runs)"""
+    _tlsverif_sample = True
+    digest_size = 20
+    block_size = 64
+
+    def __init__(self, fed=b""):
+        self.fed = bytes(fed)
+
+    def copy(self):
+        return _SampleMac(self.fed)
+
+    def update(self, data):
+        self.fed += bytes(data)
+
+    def digest(self):
+        import hashlib
+        return hashlib.sha1(b"sample-key" + self.fed).digest()
+
+    def __hash__(self):
+        return hash(self.fed)
+
+    def __eq__(self, other):
+        return isinstance(other, _SampleMac) and other.fed == self.fed
+
+
+def run_method(ctx, fi, args, env_extra, hooks):
+    """interpret one method over sample values (condeval.exec_block; nothing of the library is run):
+    -> ("return", value) / ("raise", exception text) / ("end", None)"""
+    from ..condeval import exec_block, Returned, Raised
+    env = {"__index__": ctx.index, "__bytes__": True, "__stmts__": True, "__selfcls__": fi.cls,
+           "__calls__": dict({"compatHMAC": lambda x: bytes(x)}, **hooks)}
+    env.update(env_extra)
+    names = [a.arg for a in fi.node.args.args]
+    if names and names[0] == "self":
+        names = names[1:]
+    defaults = fi.node.args.defaults
+    for i, nm in enumerate(names):
+        if i < len(args):
+            env[nm] = args[i]
+        else:
+            d = defaults[i - (len(names) - len(defaults))] if i - (len(names) - len(defaults)) >= 0 else None
+            if d is not None:
+                env[nm] = ast.literal_eval(d)
+    try:
+        exec_block(fi.node.body, env)
+    except Returned as r:
+        return "return", r.value
+    except Raised as r:
+        return "raise", r.what
+    return "end", None
+
+
 def rule_aad(ctx, R):
-    """sender and receiver build the same MAC input and AEAD additional data."""
-    cm = ctx.index.func(RECLAYER + "calculateMAC")
-    def updates(fn_node, macname):
-        out = []
-        for st in ast.walk(fn_node):
-            if isinstance(st, ast.Expr) and isinstance(st.value, ast.Call) and \
-                    isinstance(st.value.func, ast.Attribute) and st.value.func.attr == "update" and \
-                    norm(st.value.func.value) == macname:
-                out.append((st.lineno, norm(st.value.args[0])))
-        return [s for _, s in sorted(out)]
-    snd = updates(cm.node, "mac")
-    want_snd = ["compatHMAC(seqnumBytes)", "compatHMAC(bytearray([contentType]))",
-                "compatHMAC(bytearray([self.version[0]]))", "compatHMAC(bytearray([self.version[1]]))",
-                "compatHMAC(bytearray([len(data) // 256]))", "compatHMAC(bytearray([len(data) % 256]))",
-                "compatHMAC(data)"]
-    ctx.check(R, snd == want_snd, cm.qname, "MAC input = seq | type | version | length | data",
-              "calculateMAC feeds %s; RFC 5246 6.2.3.1 requires seq_num, type, version, length, fragment" % snd,
-              cm.loc())
-    ver = [n for n in own_nodes(cm.node) if isinstance(n, ast.If) and norm(n.test) == "self.version != (3, 0)"]
-    okv = len(ver) == 1 and [norm(s) for s in ver[0].body] == [
-        "mac.update(compatHMAC(bytearray([self.version[0]])))", "mac.update(compatHMAC(bytearray([self.version[1]])))"]
-    ctx.check(R, okv, cm.qname, "version bytes omitted only for SSLv3", "the version bytes are part of the MAC "
-              "input for every version except SSLv3", cm.loc())
-    ct = ctx.index.func("utils.constanttime:ct_check_cbc_mac_and_pad")
-    rcv = updates(ct.node, "data_mac")
-    want_rcv = ["compatHMAC(seqnumBytes)", "compatHMAC(bytearray([contentType]))",
-                "compatHMAC(bytearray([version[0]]))", "compatHMAC(bytearray([version[1]]))",
-                "compatHMAC(bytearray([mac_start >> 8]))", "compatHMAC(bytearray([mac_start & 255]))",
-                "compatHMAC(data[:start_pos])"]
-    ctx.check(R, rcv == want_rcv, ct.qname, "receiver's CBC MAC header has the sender's shape",
-              "ct_check_cbc_mac_and_pad feeds %s as MAC header; the sender feeds seq | type | version | "
-              "length (high, low byte) | data" % rcv, ct.loc())
-    verr = [n for n in own_nodes(ct.node) if isinstance(n, ast.If) and norm(n.test) == "version != (3, 0)"
-            and any("data_mac.update" in norm(s) for s in n.body)]
-    ctx.check(R, len(verr) == 1, ct.qname, "receiver omits version bytes only for SSLv3",
-              "receiver and sender disagree on when the version is part of the MAC input", ct.loc())
-    # AEAD additional data
+    """sender and receiver build the MAC input and the AEAD nonce / additional data the RFCs prescribe:
+    decided by interpreting the methods over sample records (nothing of the library is run) and comparing
+    what reaches seal()/open() and the MAC context with the values computed from RFC 5246 6.2.3,
+    RFC 7905 2 and RFC 8446 5.2-5.3 - whatever locals, helpers or statement order the code uses."""
+    from ..condeval import Rec, Unknown
+    SEQ = bytes([0, 0, 0, 0, 0, 0, 1, 7])          # the endpoint's own implicit sequence number
+    EXPL = bytes([9, 9, 9, 9, 9, 9, 9, 9])         # explicit nonce carried by a received record
+    PT = bytes(range(1, 41))
+    TAG = b"T" * 16
     es = ctx.index.func(RECLAYER + "_encryptThenSeal")
     du = ctx.index.func(RECLAYER + "_decryptAndUnseal")
-    def auth(fn, seqname):
-        out = {}
-        for n in own_nodes(fn.node):
-            if isinstance(n, ast.Assign) and norm(n.targets[0]) == "authData":
-                out[n.lineno] = norm(n.value)
-        return [v for k, v in sorted(out.items())]
-    a_s, a_r = auth(es, "seqNumBytes"), auth(du, "seqnumBytes")
-    ok_s = len(a_s) == 2 and a_s[0] == ("seqNumBytes + bytearray([contentType, self.version[0], self.version[1], "
-                                        "len(buf) // 256, len(buf) % 256])")
-    ok_r = len(a_r) == 2 and a_r[0] == ("seqnumBytes + bytearray([header.type, self.version[0], self.version[1], "
-                                        "plaintextLen // 256, plaintextLen % 256])") and a_r[1] == "header.write()"
-    ctx.check(R, ok_s, es.qname, "TLS 1.2 AEAD additional data (sender) = seq | type | version | plaintext length",
-              "sender's AEAD additional data is %s" % a_s, es.loc())
-    ctx.check(R, ok_r, du.qname, "TLS 1.2 AEAD additional data (receiver) = seq | type | version | plaintext length",
-              "receiver's AEAD additional data is %s" % a_r, du.loc())
-    pl = [n for n in own_nodes(du.node) if isinstance(n, ast.Assign) and norm(n.targets[0]) == "plaintextLen"]
-    ctx.check(R, bool(pl) and norm(pl[0].value) == "len(buf) - self._readState.encContext.tagLength", du.qname,
-              "receiver's plaintext length = ciphertext - tag", "the receiver must authenticate the plaintext "
-              "length (ciphertext length minus tag length)", du.loc())
-    # the sequence-number bytes are the implicit counter on both sides and are never re-bound
-    for fn, nm, state in ((es, "seqNumBytes", "_writeState"), (du, "seqnumBytes", "_readState")):
-        defs = [n for n in own_nodes(fn.node) if isinstance(n, (ast.Assign, ast.AugAssign)) and any(
-            attr_chain(t) == nm for t in (n.targets if isinstance(n, ast.Assign) else [n.target]))]
-        ok = len(defs) == 1 and norm(defs[0].value) == "self.%s.getSeqNumBytes()" % state
-        ctx.check(R, ok, fn.qname, "%s is the implicit per-direction counter, bound once" % nm,
-                  "%s must only ever hold the implicit sequence number of %s (it is bound %d times): if "
-                  "the additional data or nonce followed a value carried in the record, replayed and "
-                  "reordered records would verify" % (nm, state, len(defs)), fn.loc())
-    # TLS 1.3 sender header: recreated record header with the output length
-    ok13 = len(a_s) == 2 and a_s[1] == ("bytearray([contentType, self._recordSocket.version[0], "
-                                        "self._recordSocket.version[1], out_len // 256, out_len % 256])")
-    ol = [n for n in own_nodes(es.node) if isinstance(n, ast.Assign) and norm(n.targets[0]) == "out_len"]
-    ok13 = ok13 and bool(ol) and norm(ol[0].value) == "len(buf) + self._writeState.encContext.tagLength"
-    ctx.check(R, ok13, es.qname, "TLS 1.3 additional data (sender) = record header with ciphertext length",
-              "TLS 1.3 sender's additional data must be the record header it is about to send", es.loc())
-    # nonce: both use _getNonce(state, seq) under the same condition; explicit nonce = seq on send
-    nons = [norm(n.value) for n in own_nodes(es.node) if isinstance(n, ast.Assign) and norm(n.targets[0]) == "nonce"]
-    nonr = [norm(n.value) for n in own_nodes(du.node) if isinstance(n, ast.Assign) and norm(n.targets[0]) == "nonce"]
-    ctx.check(R, nons == ["self._getNonce(self._writeState, seqNumBytes)"], es.qname,
-              "sender's nonce from write state and sequence number", "sender nonce is %s" % nons, es.loc())
-    ctx.check(R, sorted(nonr) == sorted(["self._readState.fixedNonce + buf[:explicitNonceLength]",
-                                         "self._getNonce(self._readState, seqnumBytes)"]), du.qname,
-              "receiver's nonce: explicit part for AES in TLS 1.2, else derived from the sequence number",
-              "receiver nonce is %s" % nonr, du.loc())
-    cs_ = [n for n in own_nodes(es.node) if isinstance(n, ast.If) and "'aes' in self._writeState.encContext.name" in norm(n.test)]
-    cr_ = [n for n in own_nodes(du.node) if isinstance(n, ast.If) and "'aes' in self._readState.encContext.name" in norm(n.test)]
-    ok = len(cs_) == 1 and len(cr_) == 1 and \
-        norm(cs_[0].test).replace("_writeState", "_S") == norm(cr_[0].test).replace("_readState", "_S") and \
-        [norm(s) for s in cs_[0].body] == ["buf = seqNumBytes + buf"]
-    ctx.check(R, ok, es.qname, "explicit nonce sent iff the receiver expects one",
-              "sender and receiver disagree on when the explicit AEAD nonce is carried in the record", es.loc())
+
+    def xor_nonce(iv):
+        pad = bytes(len(iv) - len(SEQ)) + SEQ
+        return bytes(a ^ b for a, b in zip(pad, iv))
+
+    def hdr(n, ver=(3, 3)):
+        return bytes([23, ver[0], ver[1], n // 256, n % 256])
+    cases = [("TLS 1.2 AES-GCM", "aes128gcm", False, b"FIXD"),
+             ("TLS 1.2 AES-CCM", "aes128ccm", False, b"FIXD"),
+             ("TLS 1.2 ChaCha20-Poly1305", "chacha20-poly1305", False, b"FIXEDNONCE12"),
+             ("TLS 1.3", "aes128gcm", True, b"FIXEDNONCE12"),
+             ("TLS 1.3 ChaCha20-Poly1305", "chacha20-poly1305", True, b"FIXEDNONCE12")]
+    for label, name, t13, fixed in cases:
+        aes12 = ("aes" in name) and not t13
+        state = Rec(encContext=Rec(name=name, tagLength=16, nonceLength=12, isAEAD=True), fixedNonce=fixed,
+                    **{"getSeqNumBytes()": SEQ})
+        common = {"self._writeState": state, "self._readState": state, "self._is_tls13_plus()": t13,
+                  "self.version": (3, 4) if t13 else (3, 3), "self._recordSocket": Rec(version=(3, 3)),
+                  "ContentType.application_data": 23}
+        want_nonce = (fixed + SEQ) if aes12 else xor_nonce(fixed)
+        # ---- sender
+        seen = []
+
+        def seal(base, n, b, a, seen=seen):
+            seen.append((bytes(n), bytes(b), bytes(a)))
+            return bytes(b) + TAG
+        try:
+            kind, val = run_method(ctx, es, [PT, 23], common, {"seal": seal})
+        except (Unknown, TypeError, AttributeError, KeyError, IndexError, ValueError) as e:
+            raise AnalysisError("%s: cannot interpret %s for %s: %s" % (R, es.qname, label, e))
+        want_aad = hdr(len(PT) + 16) if t13 else SEQ + hdr(len(PT))
+        want_out = ((SEQ if aes12 else b"") + PT + TAG)
+        ok = kind == "return" and len(seen) == 1 and seen[0] == (want_nonce, PT, want_aad) and bytes(val) == want_out
+        why = ""
+        if not ok:
+            if kind != "return" or len(seen) != 1:
+                why = "ends with %s after %d seal() calls" % (kind, len(seen))
+            elif seen[0][0] != want_nonce:
+                why = "nonce is %r, must be %r" % (seen[0][0], want_nonce)
+            elif seen[0][2] != want_aad:
+                why = "additional data is %r, must be %r" % (seen[0][2], want_aad)
+            elif seen[0][1] != PT:
+                why = "the data sealed is not the plaintext"
+            else:
+                why = "the record payload is %r..., must be %s ciphertext" % (
+                    bytes(val)[:10], "explicit nonce (= sequence number) followed by the" if aes12 else "just the")
+        ctx.check(R, ok, es.qname, "%s sender: nonce, additional data, payload" % label,
+                  "%s sender: %s (own sequence number %r, fixed nonce %r, 40-byte plaintext of type 23)" % (
+                      label, why, SEQ, fixed), es.loc(),
+                  what="%s sender seals with the prescribed nonce / additional data" % label)
+        # ---- receiver
+        seen = []
+
+        def opn(base, n, b, a, seen=seen):
+            seen.append((bytes(n), bytes(b), bytes(a)))
+            return bytes(b)[:-16]
+        wire = (EXPL if aes12 else b"") + PT + TAG
+        header = Rec(type=23, version=(3, 3), length=len(wire), **{"write()": hdr(len(wire))})
+        try:
+            kind, val = run_method(ctx, du, [header, wire], common, {"open": opn})
+        except (Unknown, TypeError, AttributeError, KeyError, IndexError, ValueError) as e:
+            raise AnalysisError("%s: cannot interpret %s for %s: %s" % (R, du.qname, label, e))
+        want_nonce_r = (fixed + EXPL) if aes12 else xor_nonce(fixed)
+        want_aad_r = hdr(len(wire)) if t13 else SEQ + hdr(len(PT))
+        ok = kind == "return" and len(seen) == 1 and seen[0] == (want_nonce_r, PT + TAG, want_aad_r) and bytes(val) == PT
+        why = ""
+        if not ok:
+            if kind != "return" or len(seen) != 1:
+                why = "ends with %s %s after %d open() calls" % (kind, val if kind == "raise" else "", len(seen))
+            elif seen[0][0] != want_nonce_r:
+                why = "nonce is %r, must be %r" % (seen[0][0], want_nonce_r)
+            elif seen[0][2] != want_aad_r:
+                why = "additional data is %r, must be %r (the receiver's OWN sequence number, the record's " \
+                      "type and version, the plaintext length)" % (seen[0][2], want_aad_r)
+            elif seen[0][1] != PT + TAG:
+                why = "the data opened is %r..., must be ciphertext and tag without the explicit nonce" % seen[0][1][:10]
+            else:
+                why = "returns %r..." % bytes(val)[:10]
+        ctx.check(R, ok, du.qname, "%s receiver: nonce, additional data, ciphertext" % label,
+                  "%s receiver: %s (own sequence number %r, explicit nonce on the wire %r)" % (label, why, SEQ, EXPL),
+                  du.loc(), what="%s receiver opens with the prescribed nonce / additional data" % label)
+        # a record shorter than the tag (or the explicit nonce) is refused before open()
+        for short in ((EXPL[:5],) if aes12 else ()) + (((EXPL if aes12 else b"") + TAG[:7]),):
+            seen = []
+            h2 = Rec(type=23, version=(3, 3), length=len(short), **{"write()": hdr(len(short))})
+            try:
+                kind, val = run_method(ctx, du, [h2, short], common, {"open": opn})
+            except (Unknown, TypeError, AttributeError, KeyError, IndexError, ValueError):
+                kind = "error"
+            ctx.check(R, kind == "raise" and "TLSBadRecordMAC" in str(val) and not seen, du.qname,
+                      "%s receiver refuses a %d-byte record" % (label, len(short)),
+                      "%s receiver: a record of %d bytes (shorter than nonce + tag) must be refused with "
+                      "TLSBadRecordMAC before the cipher is called (outcome: %s)" % (label, len(short), kind), du.loc())
+    # ---- MAC input (MAC-then-encrypt, encrypt-then-MAC, stream): seq | type | [version] | length | data
+    cm = ctx.index.func(RECLAYER + "calculateMAC")
+    for ver in ((3, 0), (3, 1), (3, 3)):
+        for data in (b"", b"x" * 5, bytes(300)):
+            mac = _SampleMac()
+            try:
+                kind, val = run_method(ctx, cm, [mac, SEQ, 22, data], {"self.version": ver}, {})
+            except (Unknown, TypeError, AttributeError, KeyError, IndexError, ValueError) as e:
+                raise AnalysisError("%s: cannot interpret %s: %s" % (R, cm.qname, e))
+            want = SEQ + bytes([22]) + (bytes(ver) if ver != (3, 0) else b"") + bytes([len(data) // 256, len(data) % 256]) + data
+            ok = kind == "return" and mac.fed == want and bytes(val) == _SampleMac(want).digest()
+            ctx.check(R, ok, cm.qname, "MAC input for version %r, %d bytes" % (ver, len(data)),
+                      "calculateMAC for version %r feeds %r..., RFC 5246 6.2.3.1 requires seq_num | type | %slength | "
+                      "fragment = %r..." % (ver, mac.fed[:16], "" if ver == (3, 0) else "version | ", want[:16]), cm.loc(),
+                      what="calculateMAC input = seq | type | [version] | length | data (%r, %d bytes)" % (ver, len(data)))
+    _cbc_samples(ctx, R)
+
+
+def _cbc_samples(ctx, R):
+    """ct_check_cbc_mac_and_pad decided on sample records: a well-formed MAC-then-encrypt plaintext
+    (any legal padding length, incl. the longest) is accepted, and every single-byte corruption of
+    content, MAC or padding is refused.  The constant-time primitives are replaced by their meaning."""
+    from ..condeval import Unknown
+    ct = ctx.index.func("utils.constanttime:ct_check_cbc_mac_and_pad")
+    SEQ = bytes([0, 0, 0, 0, 0, 0, 1, 7])
+    hooks = {"ct_lt_u32": lambda a, b: int((a & 0xffffffff) < (b & 0xffffffff)),
+             "ct_gt_u32": lambda a, b: int((a & 0xffffffff) > (b & 0xffffffff)),
+             "ct_le_u32": lambda a, b: int((a & 0xffffffff) <= (b & 0xffffffff)),
+             "ct_eq_u32": lambda a, b: int((a & 0xffffffff) == (b & 0xffffffff)),
+             "ct_neq_u32": lambda a, b: int((a & 0xffffffff) != (b & 0xffffffff)),
+             "ct_isnonzero_u32": lambda a: int((a & 0xffffffff) != 0),
+             "ct_lsb_prop_u8": lambda a: 0xff if a & 1 else 0,
+             "ct_lsb_prop_u16": lambda a: 0xffff if a & 1 else 0}
+    present = {f.name for f in ctx.index.all_functions() if f.module.name == "utils.constanttime"}
+    hooks = {k: v for k, v in hooks.items() if k in present}
+
+    def record(content, pad, ver):
+        want = SEQ + bytes([23]) + (bytes(ver) if ver != (3, 0) else b"") + \
+            bytes([len(content) // 256, len(content) % 256]) + content
+        return content + _SampleMac(want).digest() + bytes([pad]) * (pad + 1)
+
+    def verdict(data, ver, block=16):
+        kind, val = run_method(ctx, ct, [data, _SampleMac(), SEQ, 23, ver, block], {}, hooks)
+        if kind != "return":
+            raise Unknown("ct_check_cbc_mac_and_pad ends with %s" % kind)
+        return bool(val)
+    n = 0
+    try:
+        for ver, shapes in (((3, 3), ((0, 11), (5, 6), (44, 255), (63, 240), (300, 3))),
+                            ((3, 1), ((27, 0), (44, 255))), ((3, 0), ((5, 6), (27, 0)))):
+            for clen, pad in shapes:
+                good = record(bytes((i * 7 + 3) % 256 for i in range(clen)), pad, ver)
+                n += 1
+                ok = verdict(good, ver)
+                ctx.check(R, ok, ct.qname, "CBC sample accepted: %d content bytes, padding %d, %r" % (clen, pad, ver),
+                          "a well-formed MAC-then-encrypt plaintext (%d content bytes, padding length %d, version %r) is "
+                          "refused" % (clen, pad, ver), ct.loc())
+                spots = []
+                if clen:
+                    spots += [("content", 0)]
+                spots += [("MAC", clen), ("MAC", clen + 19)]
+                if pad and ver != (3, 0):
+                    spots += [("padding", clen + 20)]
+                for what, pos in spots:
+                    bad = bytearray(good)
+                    bad[pos] ^= 0x41
+                    n += 1
+                    acc = verdict(bytes(bad), ver)
+                    ctx.check(R, not acc, ct.qname,
+                              "CBC sample refused: %s byte corrupted (%d content bytes, padding %d, %r)" % (what, clen, pad, ver),
+                              "a MAC-then-encrypt plaintext whose %s byte at offset %d was altered is ACCEPTED (%d content "
+                              "bytes, padding length %d, version %r): the record is delivered without a valid MAC / padding"
+                              % (what, pos, clen, pad, ver), ct.loc())
+    except (Unknown, TypeError, AttributeError, KeyError, IndexError, ValueError) as e:
+        raise AnalysisError("%s: cannot interpret %s over the sample records: %s" % (R, ct.qname, e))
+    if n < 30:
+        raise AnalysisError("%s: only %d CBC samples evaluated" % (R, n))
 
 
 def _side_of(expr, client_names, server_names):
